@@ -13,7 +13,7 @@ use uom::si::time::second;
 pub fn def() -> PropDef {
     PropDef {
         id: "C18",
-        rule: "inputs: every tabulated time of each of the 92 z slices exactly and +-1 ulp (exhaustive: every knot), the midpoint of every knot interval, the first/last knot, pairs (t, t + 8 ns) at every knot and at generated times, uniform (z, t) in [-1.3, 1.3] m x [-1e-6, 5e-6] s, histories of 2-11 lookups hopping between three neighbouring slices (bounds, bounds +-1 ulp, interior points, both signs) on one thread, every slice bound +-1 ulp with both signs, z = +-0; oracle: the harness's own reader of drift_1T_70Ar_30CO2.json (slice = first bound >= |z|; Ok iff |z| <= 1.152 and t_first <= t <= t_last inclusive, with the matching error variant otherwise) agrees on Ok/Err and the error kind; on Ok r within [r_min, r_max] of the slice, r equals the independent linear interpolation within 1e-12 m, r(z,t) == r(-z,t) by bits, r at knot j == tabulated r_j within 1e-12 m, r non-increasing in t, phi_out == phi_in - L modulo a full turn (phi_in = a wire azimuth, every case in four on the first or last eight wires where L can exceed the azimuth, plus 0, 1e-9, 2 pi - 1e-9) with 0 <= L <= max L of the slice and L equal to the independent interpolation within 1e-12; |r(t + 8 ns) - r(t)| < 0.5 mm; non-trivial = successful lookups within 1 ulp of a knot or slice bound, and the (t, t + 8 ns) pairs; distinct by (slice, time bits)",
+        rule: "(times include the negative zero, which equals the first tabulated time) inputs: every tabulated time of each of the 92 z slices exactly and +-1 ulp (exhaustive: every knot), the midpoint of every knot interval, the first/last knot, pairs (t, t + 8 ns) at every knot and at generated times, uniform (z, t) in [-1.3, 1.3] m x [-1e-6, 5e-6] s, histories of 2-11 lookups hopping between three neighbouring slices (bounds, bounds +-1 ulp, interior points, both signs) on one thread, every slice bound +-1 ulp with both signs, z = +-0; oracle: the harness's own reader of drift_1T_70Ar_30CO2.json (slice = first bound >= |z|; Ok iff |z| <= 1.152 and t_first <= t <= t_last inclusive, with the matching error variant otherwise) agrees on Ok/Err and the error kind; on Ok r within [r_min, r_max] of the slice, r equals the independent linear interpolation within 1e-12 m, r(z,t) == r(-z,t) by bits, r at knot j == tabulated r_j within 1e-12 m, r non-increasing in t, phi_out == phi_in - L modulo a full turn (phi_in = a wire azimuth, every case in four on the first or last eight wires where L can exceed the azimuth, plus 0, 1e-9, 2 pi - 1e-9) with 0 <= L <= max L of the slice and L equal to the independent interpolation within 1e-12; |r(t + 8 ns) - r(t)| < 0.5 mm; non-trivial = successful lookups within 1 ulp of a knot or slice bound, and the (t, t + 8 ns) pairs; distinct by (slice, time bits)",
         assumptions: &[
             "KNOWN FINDING D6: the shipped table has adjacent-knot radius steps of 0.50-0.66 mm in the first knots of most slices; the lookup interpolates them faithfully, so the literal 0.5 mm clause fails for pairs overlapping those intervals. Those (slice, knot) intervals are listed in known/C18-steps.json; a pair that breaks 0.5 mm elsewhere, or by more than the tabulated step, is a VIOLATION",
         ],
@@ -180,7 +180,8 @@ fn run(r: &Run) {
             ensure!((rr - s.knots[j].1).abs() <= 1e-12, "drift-knot", "slice {si} knot {j}: r({t:e}) = {rr}, tabulated {}", s.knots[j].1);
             ev.nontrivial(fingerprint(&(si, t.to_bits())));
         }
-        for tt in [t, ulp(t, true), ulp(t, false)] {
+        // (-t is the negative zero at the first knot: equal to the first tabulated time)
+        for tt in [t, ulp(t, true), ulp(t, false), if t == 0.0 { -t } else { t }] {
             point(z, tt, listed, ev)?;
         }
         if j + 1 < s.knots.len() {
@@ -194,7 +195,7 @@ fn run(r: &Run) {
     r.enumerate("slice_bounds", nb * 6, move |i, ev| {
         let b = tab[(i / 6) as usize].z_upper;
         let z = [b, ulp(b, true), ulp(b, false), -b, -ulp(b, true), -ulp(b, false)][(i % 6) as usize];
-        for t in [0.0, 1e-6, 3.95e-6, 4.2e-6, 4.288e-6, -8e-9] {
+        for t in [0.0, -0.0, 1e-6, 3.95e-6, 4.2e-6, 4.288e-6, -8e-9] {
             point(z, t, listed, ev)?;
         }
         ev.nontrivial(fingerprint(&("bound", z.to_bits())));
@@ -225,7 +226,7 @@ fn run(r: &Run) {
             let knots = &tab[si].knots;
             let t = match (h >> 20) % 4 {
                 0 => knots[knots.len() - 1].0,
-                1 => 0.0,
+                1 => if (h >> 40) & 1 == 0 { 0.0 } else { -0.0 },
                 2 => knots[(h >> 24) as usize % knots.len()].0,
                 _ => knots[knots.len() - 1].0 * ((h >> 24) % 1000) as f64 / 999.0,
             };
